@@ -64,3 +64,11 @@ def run(ck):
     di = ck.body("4", "LoopHandle::disable")
     reg = T.calls(di, name=("register", "reregister", "unregister"), trait="EventDispatcher", self_kind=("dyn",))
     ck.verdict(bool(reg) and all(c.name == "unregister" for c in reg), "4", "T8-sibling-agreement", di, "disable-calls-unregister", "disable() calls unregister", "disable() calls %s" % sorted({c.name for c in reg}), site=di.where())
+
+    # ---- clause 5: shared necessary conditions ---------------------------------------------------------------
+    from props import C14, C15, C01
+
+    common.import_results(ck, C15, "4", "Generic", "2")
+    common.import_results(ck, C14, "1", None, "5")
+    common.import_results(ck, C14, "2", None, "5")
+    common.import_results(ck, C01, "6", None, "3")
